@@ -68,6 +68,12 @@ func (e *engine) composeRaces(res *entryResult) {
 		return strings.Join(traces[i].Events, ";") < strings.Join(traces[j].Events, ";")
 	})
 	reported := map[string]bool{}
+	label := "C11.no-unsynchronised-conflicting-access"
+	for _, t := range traces {
+		if t.Label != "" {
+			label = t.Label
+		}
+	}
 	for i := 0; i < len(traces); i++ {
 		for j := i; j < len(traces); j++ {
 			p, q := parseTrace(traces[i].Events), parseTrace(traces[j].Events)
@@ -172,14 +178,14 @@ func (e *engine) composeRaces(res *entryResult) {
 						order = append(order, x.s)
 					}
 					res.Obligations++
-					res.Violated = append(res.Violated, obligRec{Kind: "race", Label: "C11.no-unsynchronised-conflicting-access", Status: "violated",
+					res.Violated = append(res.Violated, obligRec{Kind: "race", Label: label, Status: "violated",
 						Entry: res.Entry, Detail: fmt.Sprintf("%s (%s) || %s (%s) on %s", traces[i].Op, ka, traces[j].Op, kb, loc),
 						Facts: map[string]string{"opA": traces[i].Op, "opB": traces[j].Op, "location": loc, "schedule": strings.Join(order, " ")}})
 				}
 			} else if ans == "unsat" {
 				res.Obligations++
 				res.Proved++
-				res.ProvedLabels["C11.no-unsynchronised-conflicting-access"]++
+				res.ProvedLabels[label]++
 			}
 			sol.send("(pop)")
 		}
